@@ -3,6 +3,7 @@
 From Coq Require Import List Arith Bool Reals Lra.
 Import ListNotations.
 From KV Require Import Model.Mat Model.Precond Model.Shard Model.Clip Proofs.MatP Proofs.ShardP Proofs.ClipP.
+From KV Require Import Model.Factor Model.ShardFactor Proofs.ShardFactorP.
 
 (* split and gather along a dimension are mutually inverse (any element type) *)
 Theorem split_gather_id : forall (T : Type) w (As : nat -> @mat T) j i c,
@@ -54,7 +55,16 @@ Theorem clip_sharded_refuted :
   vg_sumR 1 [full] = 2 /\ vg_sumR 1 [local] = 1 /\ nuR 1 (vg_sumR 1 [local]) = 1 /\ nuR 1 (vg_sumR 1 [full]) < 1.
 Proof. exact clip_sharded_refuted_l. Qed.
 
+(* the factors: what the primary computes from the operand gathered over the model-parallel group is, entry for
+   entry, the factor of the unsharded layer (any arithmetic, any shard width, bias column or not) - A for a
+   row-parallel layer (input sharded), G for a column-parallel layer (output gradient sharded) *)
+Theorem sharded_factor_is_unsharded : forall (T : Type) (O : ops T) (w rows n : nat) (hb : bool) (X : @mat T) (i j : nat), (0 < w)%nat ->
+  neox_a_factor O ParInput w rows n hb (fun q => split_cols w q X) i j = lin_a O rows n hb X i j /\
+  neox_g_factor O ParOutput w rows n (fun q => split_cols w q X) i j = lin_g O rows n X i j.
+Proof. intros T O w rows n hb X i j Hw. split; [now apply sharded_a_factor_l|now apply sharded_g_factor_l]. Qed.
+
 Print Assumptions split_gather_id.
+Print Assumptions sharded_factor_is_unsharded.
 Print Assumptions gather_split_id.
 Print Assumptions reduce_scatter_as_scatter.
 Print Assumptions assembled_is_unsharded.
